@@ -20,7 +20,9 @@ META = {
                    "YAML minus timestamps, session transcript; no-change redeploy rewrites nothing)."),
     "level_note": ("Hypotheses of the theorems (outside the proof): the config compiler records the mtime of every resource it read and "
                    "depends on nothing else (C14's subject; compared per run through the recorded timestamps); checksum injective on the "
-                   "contents at hand (CRC32, fed with the concatenation of the files); edits change mtime and no file has mtime 0; the "
+                   "contents at hand (CRC32, fed with the concatenation of the files); edits change the recorded mtime and no file is recorded with time 0 (the mtime itself "
+                   "where timestamps are stored as 64-bit numbers; `(int)time_t` in older trees, where this holds for mtimes less than 2^32 s "
+                   "apart only — Gen.DeployFacts.timestampBits, re-read from the source per run); the "
                    "final sources are deployable (default has a schema list, listed schemas exist, every reachable valid schema compiles "
                    "and its dictionary, imports and packs have sources — reuse-without-source and failed builds keep old artefacts by "
                    "design); for idempotence/no-stale-use, no artefact file is claimed with two contents (one prism name per schema, a "
@@ -220,9 +222,11 @@ def run_history(c, runner, hist, work, have_hooks, tag, check_sessions=True):
     return res
 
 
-def gen_history(rng, n_edits, big=False):
-    w = dc.base_workspace(rng, big=big)
-    hist = {"base": w.to_json(), "steps": [], "edits": []}
+def gen_history(rng, n_edits, big=False, epoch="2017"):
+    """`epoch`: where the virtual clock of the history starts (dc.EPOCHS): every source mtime and every deployment time
+    of the history lies there"""
+    w = dc.base_workspace(rng, big=big, t0=dc.EPOCHS[epoch])
+    hist = {"base": w.to_json(), "steps": [], "edits": [], "epoch": epoch}
     for _ in range(n_edits):
         k = rng.randint(1, 2)
         names = []
@@ -233,18 +237,21 @@ def gen_history(rng, n_edits, big=False):
     return hist
 
 
-def directed_histories():
+def directed_histories(far=True):
     """one history per dependency edge of the build graph, each with an edit whose effect is visible in the artefact that
     depends on it (so that a staleness decision that ignores the edge shows as a content difference, not only as a
-    disagreement with the model)"""
+    disagreement with the model); then the same edges with edits that change white space only; then config sources
+    dated far in the future (`far`: the scratch file system can hold such mtimes)"""
     out = []
 
-    def mk(name, *edits):
+    def mk(name, *edits, setup=None):
         w = dc.base_workspace(random.Random(11))
         rel = w.resolve("sa.schema.yaml")
         f = copy.deepcopy(w.files[rel])
         f["packs"] = ["pk1", "pk2"]
         w.put(rel, f)
+        for fn in (setup or []):
+            fn(w)
         hist = {"base": w.to_json(), "steps": [], "edits": []}
         for label, fn in edits:
             fn(w)
@@ -286,6 +293,81 @@ def directed_histories():
     mk("user copy shadows and unshadows a shared schema",
        ("shadow sc", lambda w: w.put("user/sc.schema.yaml", dict({k: v for k, v in w.files["shared/sc.schema.yaml"].items() if k != "mtime"}, algebra=["derive/^d/t/"], version="2"))),
        ("unshadow sc", lambda w: w.remove("user/sc.schema.yaml")))
+
+    # ---- the same edges, with edits whose byte difference is white space only but whose meaning differs
+    def row(name, r):
+        return edit(name, lambda f: f["rows"].append(list(r)))
+
+    def recode(name, text, code):
+        def mut(f):
+            i = max(j for j, r in enumerate(f["rows"]) if r[0] == text)
+            f["rows"][i] = [f["rows"][i][0], code] + list(f["rows"][i][2:])
+        return edit(name, mut)
+    mk("white space only: syllable boundary moved in the primary dictionary -> table, reverse db, prisms, packs",
+       ("ws_syl da: `hao de` -> `ha ode`", recode("da.dict.yaml", "好的", "ha ode")),
+       setup=[row("da.dict.yaml", ["好的", "hao de", 30])])
+    mk("white space only: two syllables joined in an imported table -> table, prisms, packs",
+       ("ws_syl dx: `ba bo` -> `babo`", recode("dx.dict.yaml", "你我", "babo")),
+       setup=[row("dx.dict.yaml", ["你我", "ba bo", 20])])
+    mk("white space only: syllable boundary moved in a pack source -> pack",
+       ("ws_syl pk2: `da guo` -> `d aguo`", recode("pk2.dict.yaml", "大国", "d aguo")),
+       setup=[row("pk2.dict.yaml", ["大国", "da guo", 9])])
+    mk("white space only: code split in a table-style dictionary -> table, prism",
+       ("ws_syl db: `abc` -> `ab c`", recode("db.dict.yaml", "和", "ab c")),
+       setup=[row("db.dict.yaml", ["和", "abc"])])
+
+    def tabswap(f):
+        i = max(j for j, r in enumerate(f["rows"]) if r[0] == "ok a")
+        f["rows"][i] = ["ok", "a ba"] + list(f["rows"][i][2:])
+    mk("white space only: tab and space trade places in a row of an imported table (`ok a<TAB>ba` -> `ok<TAB>a ba`)",
+       ("ws_tab dx", edit("dx.dict.yaml", tabswap)))
+
+    def essay_space(f):
+        i = max(j for j, r in enumerate(f["rows"]) if r[0] == dc.HAN[0] + dc.HAN[1])
+        f["rows"][i] = [dc.HAN[0] + " " + dc.HAN[1], f["rows"][i][1]]
+    mk("white space only: a space typed into a preset-vocabulary phrase made of known characters -> table",
+       ("ws_essay", edit("essay.txt", essay_space)))
+    mk("white space only: space moved inside an algebra rule of the schema -> compiled schema -> prism",
+       ("ws_algebra sa", edit("sa.schema.yaml", lambda f: f["algebra"].__setitem__(f["algebra"].index("derive/^(.)a$/$1 e/"), "derive/^(.)a$/$1e /"))),
+       setup=[edit("sa.schema.yaml", lambda f: f["algebra"].append("derive/^(.)a$/$1 e/"))])
+    mk("white space only: space moved inside an algebra rule of a custom patch -> compiled schema -> prism",
+       ("ws_algebra sa.custom", lambda w: w.put("user/sa.custom.yaml", {"kind": "custom", "patch": [["speller/algebra/+", ["derive/^(.)o$/$1u /"]]]})),
+       setup=[lambda w: w.put("user/sa.custom.yaml", {"kind": "custom", "patch": [["speller/algebra/+", ["derive/^(.)o$/$1 u/"]]]})])
+    if not far:
+        return out
+
+    # ---- config sources dated far in the future (the rest of the workspace and the deployments stay in 2017).  The
+    # recorded time is `(int)mtime`: negative from 2038-01-19 on, small again from 2106-02-07 on.  Every history ends
+    # with the far-dated files still there, so the no-change redeploy sees them.
+    def dated(skew, rel_name, mut):
+        def fn(w):
+            rel = w.resolve(rel_name)
+            f = copy.deepcopy(w.files[rel])
+            mut(f)
+            f["skew"] = skew
+            w.put(rel, f)
+        return fn
+
+    def custom(rel, patch, skew=0, mtime=None):
+        def fn(w):
+            w.put(rel, dict({"kind": "custom", "patch": patch}, **({"skew": skew} if skew else {})))
+            if mtime is not None:
+                w.files[rel]["mtime"] = mtime
+        return fn
+    mk("config sources dated 2040, one per kind of resource a compiled config records",
+       ("custom_on sa dated 2040", custom("user/sa.custom.yaml", [["menu/page_size", 7]], dc.SKEW_2040)),
+       ("schema sb edited, dated 2040", dated(dc.SKEW_2040, "sb.schema.yaml", lambda f: f.__setitem__("version", "2"))),
+       ("included config edited, dated 2040", dated(dc.SKEW_2040, "common.yaml", lambda f: f["rules"].append("derive/^h/f/"))),
+       ("defcustom_on dated 2040", custom("user/default.custom.yaml", [["menu/page_size", 6]], dc.SKEW_2040)),
+       ("default.yaml edited, dated 2040", dated(dc.SKEW_2040, "default.yaml", lambda f: f.__setitem__("page_size", 8))))
+    mk("a custom patch edited across 2038-01-19T03:14:08Z: mtime 2^31-1, then 2^31",
+       ("custom_on sa at 2^31-1", custom("user/sa.custom.yaml", [["speller/algebra/+", ["derive/^g/k/"]]], mtime=2**31 - 1)),
+       ("custom_mod sa at 2^31", custom("user/sa.custom.yaml", [["speller/algebra/+", ["derive/^d/t/"]]], mtime=2**31)))
+    mk("config sources dated after 2106-02-07 (recorded as small numbers), then one comes back to the present",
+       ("custom_on sa dated 2106", custom("user/sa.custom.yaml", [["speller/algebra/+", ["derive/^g/k/"]]], dc.SKEW_2106)),
+       ("schema sc edited, dated 2106", dated(dc.SKEW_2106, "sc.schema.yaml", lambda f: f["algebra"].append("derive/^d/t/"))),
+       ("custom_mod sa dated by the clock again (mtime decreases)", custom("user/sa.custom.yaml", [["speller/algebra/+", ["derive/^b/p/"]]])),
+       ("custom_on sb dated 2040", custom("user/sb.custom.yaml", [["menu/page_size", 4]], dc.SKEW_2040)))
     return out
 
 
@@ -296,8 +378,14 @@ def shrink(c, runner, hist, work, have_hooks, bad):
     while changed and len(cur["steps"]) > 0:
         changed = False
         for i in range(len(cur["steps"])):
-            cand = {"base": cur["base"], "steps": cur["steps"][:i] + cur["steps"][i + 1:],
-                    "edits": cur["edits"][:i] + cur["edits"][i + 1:]}
+            # steps are snapshots: dropping one drops the deployment in between, its edits stay part of the next step
+            edits = [list(e) for e in cur["edits"]]
+            if i + 1 < len(edits):
+                edits[i + 1] = edits[i] + edits[i + 1]
+            cand = {"base": cur["base"], "steps": cur["steps"][:i] + cur["steps"][i + 1:], "edits": edits[:i] + edits[i + 1:]}
+            for k in ("directed", "epoch"):
+                if k in cur:
+                    cand[k] = cur[k]
             if i == len(cur["steps"]) - 1 and not cand["steps"]:
                 continue
             r = run_history(c, runner, cand, work, have_hooks, "shrink")
@@ -347,10 +435,17 @@ def run(c):
     # B
     exe, bdir = vlib.build_harness("c12_harness", FLAVOUR, ["c12_harness.cc"], libs=["-lmarisa"])
     runner = dc.Runner(exe, FLAVOUR)
+    # can the scratch file system hold mtimes past 2^31 / 2^32 s?  (if not: those histories are left out, and said so)
+    far = dc.far_mtimes_supported(c.work)
+    if not far:
+        del dc.FAR_SKEWS[:]
+    # which way the tree under test records source timestamps (the model follows through Gen.DeployFacts.timestampBits)
+    ts_bits = gen["facts"].get("timestampBits", 0)
+    dc.set_timestamp_bits(ts_bits)
     # K + O
     n_hist, n_edits = (30, 5) if quick else (300, 8)
     stats = {"histories": 0, "deploys": 0, "decisions": 0, "rebuilds": 0, "reuses": 0, "mismatches": 0, "edit_kinds": {},
-             "session_lines": 0, "corpus": 0}
+             "session_lines": 0, "corpus": 0, "epochs": {}}
     samples, nontrivial = [], set()
     all_mm, all_viol = [], []
 
@@ -384,7 +479,7 @@ def run(c):
         for m in res["mismatches"]:
             all_mm.append((m, hist))
     # directed histories: one per dependency edge
-    for i, hist in enumerate(directed_histories()):
+    for i, hist in enumerate(directed_histories(far)):
         res = run_history(c, runner, hist, c.work, have_hooks, "dir%d" % i)
         account(hist, res, "directed: " + hist["directed"])
         stats["directed"] = stats.get("directed", 0) + 1
@@ -395,7 +490,10 @@ def run(c):
     # generated histories
     for h in range(n_hist):
         big = (h % 5 == 4)
-        hist = gen_history(c.rng, n_edits, big=big)
+        # every third history lives entirely in a far epoch: 2040, across 2^31 (2038), across 2^32 (2106)
+        epoch = ("2040", "2038", "2106")[(h // 3) % 3] if (far and h % 3 == 1) else "2017"
+        stats["epochs"][epoch] = stats["epochs"].get(epoch, 0) + 1
+        hist = gen_history(c.rng, n_edits, big=big, epoch=epoch)
         res = run_history(c, runner, hist, c.work, have_hooks, "h%d" % h)
         account(hist, res, "generated")
         for sig, what in res["violations"]:
@@ -427,7 +525,11 @@ def run(c):
             c.report("C12:correspondence", "model of the deployer and the implementation disagree: %s" % m["what"][:300],
                      {"kind": "correspondence", "broken": "driver_c12 vs c12_harness", "first": r["mismatches"][:4] or [m],
                       "history": small}, no_input=True)
-    if not audit["ok"] and not unexpected:
+    if gen.get("unknown_c12") and not unexpected:
+        c.report("C12:translator", "gen/deploy_facts.py no longer understands how source timestamps are written and read: %s" % gen["unknown_c12"],
+                 {"kind": "proof", "broken": "translator gen/deploy_facts.py (timestampBits); premise of C12.timestamp_width_known",
+                  "unknown": gen["unknown_c12"]}, no_input=True)
+    elif not audit["ok"] and not unexpected:
         c.report("C12:proof", "proof obligation no longer checks: %s" % "; ".join("%s: %s" % f for f in audit["failures"])[:600],
                  {"kind": "proof", "broken_theorems": audit["failures"], "lean_log": audit["log"][-3000:]}, no_input=True)
     cov = vlib.proof_cov(audit, "lake build RimeModel.Props.C12 && #print axioms (all theorems) && forbidden-token scan"
@@ -437,21 +539,30 @@ def run(c):
     cov.update({
         "evaluations": stats["deploys"], "distinct_nontrivial": len(nontrivial),
         "rule": ("generated edit histories over a 3-schema workspace (rows, algebra, custom patches on/off, imports, packs, schema list, "
-                 "preset vocabulary, touch, user-directory shadow copies, dependencies, included config, padding > 8 KiB); one evaluation = "
+                 "preset vocabulary, touch, user-directory shadow copies, dependencies, included config, padding > 8 KiB, edits that "
+                 "change white space only but not the meaning-bearing letters: syllable boundary moved / joined / split, tab and space "
+                 "trading places, a space typed into a vocabulary phrase; files re-dated to 2040 / 2106; every third history with "
+                 "all mtimes and deployment times in 2040, across 2^31 s or across 2^32 s); one evaluation = "
                  "one real deployment compared with the model; a history is non-trivial when its deployments took both 'rebuild' and "
                  "'reuse' decisions; distinct by edit list"),
         "samples": samples, "histories": stats["histories"], "decisions_compared": stats["decisions"],
         "rebuild_decisions": stats["rebuilds"], "reuse_decisions": stats["reuses"], "edit_kind_distribution": stats["edit_kinds"],
         "session_transcript_lines": stats["session_lines"], "corpus_cases": stats["corpus"], "directed_histories": stats.get("directed", 0),
+        "far_future_mtimes": "run" if far else "NOT RUN (the scratch file system cannot hold mtimes past 2^31 s)",
+        "generated_histories_by_epoch": stats["epochs"],
         "detect_modifications_fired": stats.get("detect_fired", 0), "detect_modifications_silent": stats.get("detect_silent", 0),
         "model_impl_disagreements": stats["mismatches"], "monitor_violations": len(all_viol),
         "decision_hook_present": have_hooks,
         "decision_log_correspondence": "run" if have_hooks else "NOT RUN (librime has no RIME_VERIF_DECISION hook); rewritten-file sets, timestamps, checksum bijection and verdicts compared instead",
-        "generated_facts": gen["facts"], "generated_facts_unknown": gen["unknown"],
+        "generated_facts": gen["facts"], "generated_facts_unknown": gen["unknown"] + gen.get("unknown_c12", []),
+        "source_timestamp_bits": ts_bits,
         "source_hash": vlib.source_hash(SRC_FILES), "proof_failures": audit["failures"], "flavour": FLAVOUR,
     })
     c.cov = cov
-    c.assumptions = ["edits change mtime (1 s resolution), no source has mtime 0", "CRC32 injective on the file contents at hand",
+    c.assumptions = [("edits change mtime (1 s resolution), no source has mtime 0" if ts_bits == 64 else
+                      "edits change the recorded mtime `(int)time_t` (1 s resolution; any two mtimes less than 2^32 s apart differ there), "
+                      "no source is recorded with time 0 (mtime a multiple of 2^32 s) — this tree stores 32-bit timestamps"),
+                     "CRC32 injective on the file contents at hand",
                      "the config compiler records every resource it reads in __build_info/timestamps and reads nothing else",
                      "final sources deployable: listed schemas exist, dictionaries / imports / packs of reachable schemas have sources",
                      "one prism name per schema; a pack belongs to one primary dictionary (idempotence, no-stale-use)",
@@ -464,6 +575,9 @@ def replay(c, r):
         print("replay: this file names a broken obligation, no concrete input:", r.get("what"))
         return 1
     exe, bdir = vlib.build_harness("c12_harness", FLAVOUR, ["c12_harness.cc"], libs=["-lmarisa"])
+    # the model follows the tree under test (Gen.DeployFacts): regenerate before building the driver
+    vlib.sh([sys.executable, os.path.join(vlib.ROOT, "gen", "deploy_facts.py"), vlib.REPO,
+             os.path.join(vlib.LEAN, "RimeModel", "Gen", "DeployFacts.lean")])
     vlib.lake_build(["driver_c12"])
     runner = dc.Runner(exe, FLAVOUR)
     res = run_history(c, runner, hist, c.work, dc.hooks_present(), "replay")
